@@ -5,5 +5,5 @@ CONSTANTS
   FullUntil = 9999
 INIT Init
 NEXT Next
-INVARIANTS TypeOK JumpAgrees AlgoAgrees Anchors GenMonthByDays
+INVARIANTS TypeOK JumpAgrees YearAgrees AlgoAgrees Anchors GenMonthByDays
 CHECK_DEADLOCK FALSE
